@@ -3,9 +3,9 @@ import os
 from . import common as C
 
 MANIFEST = dict(
-   technique="Lean 4 proof (toJS transcribed from jsonschema/to.go is a validity-preserving homomorphism from the gozod schema fragment to Draft 2020-12 keywords, on an explicit decidable Representable fragment) + differential correspondence: model document = real ToJSONSchema output, model verdicts = real Parse verdicts, and an independent validator (kaptinlin/jsonschema) judging the real document on the same instances",
-   text="c07_equiv_partial / c07_sound / c07_complete: for every Representable schema and every in-scope JSON instance, the instance validates against the emitted document iff Parse accepts it (strip-mode objects: the returned value validates / a validating input is accepted); c07_wellformed: the emitted document is well formed and contains no dangling reference; c07_history_equiv / _sound / _complete / _stable: the same holds for the document of every call of every sequence of ToJSONSchema calls (any option sets, any schemas converted before), and two calls on the same (options, schema) give the same document. Outside Representable each excluded class has a witness theorem and a replayed concrete instance (known findings).",
-   note="PARTIAL: holds on the Representable fragment only (see notes/C07.md for the excluded classes, each a demonstrated defect of the pinned tree). Lazy, discriminated unions, string formats, Default/Prefault, Map, Set, Struct, File, Pipe/Transform are not modelled; user regexes come from a five-entry table with hand-written meanings; registry IDs and reused:'ref' documents are compared after inlining the emitted $ref nodes (the raw document is what the independent validator judges). Instances: ASCII strings, numbers that are multiples of 1/4 below 2^51. Trusted: Lean kernel; the hand-written jsValid (cross-checked on every generated case against kaptinlin/jsonschema on the real document); the Go harness, schema-directed embedding and comparer. The model is validated on generated cases, not for all inputs.",
+   technique="Lean 4 proof (toJS transcribed from jsonschema/to.go is a validity-preserving homomorphism from the gozod schema fragment to Draft 2020-12 keywords, on an explicit decidable Representable fragment; Lazy on top of it) + a go/ast translator regenerating the converter's dispatch / constant tables (Gen/ToJsonCases.lean) with `decide` proofs over the whole tables + structure fingerprints of the 65 transcribed Go functions + differential correspondence: model document = real ToJSONSchema output, model verdicts = real Parse verdicts, and an independent validator (kaptinlin/jsonschema) judging the real document on the same instances",
+   text="c07_equiv_partial / c07_sound / c07_complete: for every Representable schema and every in-scope JSON instance, the instance validates against the emitted document iff Parse accepts it (strip-mode objects: the returned value validates / a validating input is accepted); c07_wellformed: the emitted document is well formed and contains no dangling reference; c07_history_equiv / _sound / _complete / _stable: the same holds for the document of every call of every sequence of ToJSONSchema calls (any option sets, any schemas converted before), and two calls on the same (options, schema) give the same document. Outside Representable each excluded class has a witness theorem and a replayed concrete instance (known findings). c07_lazy_equiv_partial / _sound / _complete / _wellformed: the same for Lazy schemas whose inner schema validateLazy actually consults (witness_lazy_typed_inner_unvalidated: for every other inner schema Lazy validates nothing). c07_codes_covered / c07_cases_partition / c07_modelled_branches / c07_unmodelled_gap / c07_range_defaults_* / c07_bag_keywords / c07_option_tests: over the tables regenerated from jsonschema/to.go and core/constants.go, every type code has one clause in doConvert, each clause of a modelled code is the one toJS transcribes, the unmodelled codes that produce a document are exactly the listed 27, the numeric range defaults and the Bag-key table are the model's.",
+   note="PARTIAL: holds on the Representable fragment only (see notes/C07.md for the excluded classes, each a demonstrated defect of the pinned tree). Lazy is modelled at the top of a schema only and non-recursive; discriminated unions, string formats, Default/Prefault, Map, Set, Struct, File, Pipe/Transform are not modelled (the list is a checked fact: c07_unmodelled_gap); user regexes come from a five-entry table with hand-written meanings; registry IDs and reused:'ref' documents are compared after inlining the emitted $ref nodes (the raw document is what the independent validator judges). Instances: ASCII strings, numbers that are multiples of 1/4 below 2^51. Trusted: Lean kernel; the hand-written jsValid (cross-checked on every generated case against kaptinlin/jsonschema on the real document); the Go harness, schema-directed embedding and comparer. The model is validated on generated cases, not for all inputs.",
    design="DESIGN.md §5 C07")
 
 MODULES = ["Gozod.Proofs.C07", "Gozod.Proofs.C07Lazy", "Gozod.Proofs.C07Cases"]
@@ -216,6 +216,7 @@ def run(res):
         "schema-directed embedding: an integral JSON number at an integer-schema position is that Go integer type, otherwise float64; within one union/xor/intersection all numeric leaves have one Go kind",
         "instances: ASCII-only strings and |number| < 2^51 with denominators dividing 4 in the theorems' scope (non-ASCII strings are generated and reported as a finding class)",
         "float MultipleOf on quarter-valued operands is exact (epsilon rule not modelled)",
-        "models /repo after fix commits 5339542 (minProperties) and 697defa (record nil value)",
+        "models /repo after fix commits 5339542 (minProperties), 697defa (record nil value), 3e22e56 (properties visited in key order), d72e9e7 (applyBag in key order)",
+        "Lazy: LazyAny(func() any { return inner }) at the top of a schema; `consults` (which inner Go types (*schemaWrapper).Parse knows) is a table validated case by case",
     ]
     return res.finish()
